@@ -74,6 +74,7 @@ func genConstraints(r *RNG) buildtags.Constraints {
 }
 
 func c14(c *Ctx) {
+	defer globalConstraintAPI(c)
 	o := c.Out
 	rng := NewRNG(c.Seed + 1400)
 	n := 400
@@ -416,6 +417,57 @@ func fileLevelConstraints(c *Ctx, o *Out, idx int, cs buildtags.Constraints, des
 				o.Plan.GoViolations = append(o.Plan.GoViolations, GoViolation{Key: "tags:file-selection-differs", Desc: fmt.Sprintf("case %d: with tags %v go/build selects the printed %s = %v (err %v) but avo evaluates the constraints %q to %v", idx, a.set, name, sel, err, desc, a.res), Replay: map[string]any{"constraints": desc, "tags": a.set, "file": name, "asm": string(asm), "stub": string(stub)}})
 				return
 			}
+		}
+	}
+}
+
+// globalConstraintAPI: the package-level constraint functions (build.Constraints / Constraint /
+// ConstraintExpr) against the Context methods, on sequences of calls: the constraint set a file ends up
+// with must be the same (Constraints replaces, the other two append).
+func globalConstraintAPI(c *Ctx) {
+	o := c.Out
+	rng := NewRNG(c.Seed + 1414)
+	type step struct {
+		desc string
+		ctx  func(*build.Context)
+		glob func()
+	}
+	mk := func() step {
+		switch rng.Intn(3) {
+		case 0:
+			t := Pick(rng, []string{"amd64", "linux", "gc"})
+			return step{"Constraints(" + t + ")", func(b *build.Context) { b.Constraints(buildtags.Term(t)) }, func() { build.Constraints(buildtags.Term(t)) }}
+		case 1:
+			t := Pick(rng, []string{"appengine", "noasm", "purego"})
+			return step{"Constraint(!" + t + ")", func(b *build.Context) { b.Constraint(buildtags.Not(t)) }, func() { build.Constraint(buildtags.Not(t)) }}
+		default:
+			e := Pick(rng, []string{"go1.18", "amd64,!purego", "linux darwin"})
+			return step{"ConstraintExpr(" + e + ")", func(b *build.Context) { b.ConstraintExpr(e) }, func() { build.ConstraintExpr(e) }}
+		}
+	}
+	for j := 0; j < 60; j++ {
+		var steps []step
+		var ds []string
+		for k := 0; k < 1+rng.Intn(4); k++ {
+			st := mk()
+			steps = append(steps, st)
+			ds = append(ds, st.desc)
+		}
+		a := build.NewContext()
+		for _, st := range steps {
+			st.ctx(a)
+		}
+		b := build.NewContext()
+		old := build.VerifSwapGlobal(b)
+		for _, st := range steps {
+			st.glob()
+		}
+		build.VerifSwapGlobal(old)
+		fa, _ := a.Result()
+		fb, _ := b.Result()
+		idx := o.AddCase(Case{Key: "tags:global-api", Desc: "package-level constraint functions vs Context methods: " + strings.Join(ds, "; "), Input: map[string]any{"calls": ds}, Nontrivial: len(steps) >= 2})
+		if fa.Constraints.GoString() != fb.Constraints.GoString() {
+			o.Plan.GoViolations = append(o.Plan.GoViolations, GoViolation{Key: "tags:global-api-differs", Desc: fmt.Sprintf("case %d: after %s the Context holds %q but the package-level functions leave %q", idx, strings.Join(ds, "; "), fa.Constraints.GoString(), fb.Constraints.GoString()), Replay: map[string]any{"calls": ds}})
 		}
 	}
 }
